@@ -390,6 +390,8 @@ func runPipeCase(c *sup.Child, idx int, script bool, viol *int) {
 		pipeScript(c, idx, rng, viol)
 	case idx%3 == 0:
 		pipePair(c, idx, rng, viol)
+	case idx%3 == 1 && idx%2 == 0:
+		pipeTriple(c, idx, rng, viol)
 	default:
 		pipeRandom(c, idx, rng, viol)
 	}
